@@ -89,6 +89,16 @@ type obs struct {
 	ScanNil int               // nil entries in the scan result
 	Count   int               // GetRegionCount
 	Stored  map[uint64]string // raw stored values by region id
+
+	sv []view // ByID sorted by start key (lazily built)
+}
+
+// sorted returns the served regions of the id index ordered by start key (cached).
+func (o *obs) sorted() []view {
+	if o.sv == nil {
+		o.sv = sortedViews(o.ByID)
+	}
+	return o.sv
 }
 
 func sortedViews(m map[uint64]view) []view {
@@ -107,7 +117,7 @@ func sortedViews(m map[uint64]view) []view {
 
 func (o *obs) describe() map[string]interface{} {
 	var served []string
-	for _, v := range sortedViews(o.ByID) {
+	for _, v := range o.sorted() {
 		served = append(served, v.Full)
 	}
 	var scan []string
@@ -138,6 +148,7 @@ type target interface {
 	Get(id uint64) *view
 	GetByKey(key string) *view
 	Loadable(id uint64) bool
+	Drop(id uint64) // admin "drop region from cache" (RaftCluster.DropCacheRegion)
 	Close()
 	// cheap reads for the concurrent readers (views without the Full / Range renderings)
 	ScanLite(start, end string, limit int) ([]view, int)
@@ -279,8 +290,10 @@ func (t *lightTarget) viewCached(r *core.RegionInfo) view {
 			v.Start == string(m.GetStartKey()) && v.End == string(m.GetEndKey()) && v.npeers == len(m.GetPeers()) && v.leader == r.GetLeader().GetId() && v.size == r.GetApproximateSize() {
 			return v
 		}
+		// modified in place: serve the current rendering, keep the original one for VerifyRetained
+		return viewOfInfo(r)
 	}
-	if t.vc == nil || len(t.vc) > 4096 {
+	if t.vc == nil || len(t.vc) > 60000 {
 		t.vc = map[*core.RegionInfo]view{}
 	}
 	v := viewOfInfo(r)
@@ -299,9 +312,53 @@ func newLight(stores int) *lightTarget {
 	for i := 1; i <= stores; i++ {
 		bc.PutStore(core.NewStoreInfo(&metapb.Store{Id: uint64(i), Address: fmt.Sprintf("mock://tikv-%d", i), State: metapb.StoreState_Up, Version: "5.0.0"}))
 	}
+	st.SaveMeta(&metapb.Cluster{Id: 1, MaxPeerCount: 3})
+	for _, s := range bc.GetStores() {
+		st.SaveStore(s.GetMeta())
+	}
 	rc := cluster.NewRaftCluster(ctx, "", 1, nil, nil, nil)
 	rc.InitCluster(mockid.NewIDAllocator(), persistOptions(), st, bc)
 	return &lightTarget{rc: rc, kv: k, st: st, cancel: cancel}
+}
+
+// Reload emulates what a PD member does when it becomes leader: a fresh cache filled from storage
+// (InitCluster with a new BasicCluster + LoadClusterInfo, the two steps of RaftCluster.Start that
+// concern regions). The storage is shared with the receiver, which must not be used afterwards.
+func (t *lightTarget) Reload() (*lightTarget, error) {
+	ctx, cancel := context.WithCancel(context.Background())
+	rc := cluster.NewRaftCluster(ctx, "", 1, nil, nil, nil)
+	rc.InitCluster(mockid.NewIDAllocator(), persistOptions(), t.st, core.NewBasicCluster())
+	c, err := rc.LoadClusterInfo()
+	if err != nil || c == nil {
+		cancel()
+		return nil, fmt.Errorf("LoadClusterInfo: %v (loaded=%v)", err, c != nil)
+	}
+	return &lightTarget{rc: rc, kv: t.kv, st: t.st, cancel: cancel}, nil
+}
+
+func (t *lightTarget) Drop(id uint64) { t.rc.DropCacheRegion(id) }
+
+// GetInfo hands out the cached object itself (for long-lived consumers).
+func (t *lightTarget) GetInfo(id uint64) *core.RegionInfo { return t.rc.GetRegion(id) }
+
+// FaultsInjected is the number of storage faults injected so far.
+func (t *lightTarget) FaultsInjected() int64 { return t.kv.Injected() }
+
+// VerifyRetained re-renders every region object the harness ever obtained from the cache (served or
+// long gone) and reports those that no longer look as they did when they were obtained: region
+// objects are handed out to long-lived consumers and must never be modified in place.
+func (t *lightTarget) VerifyRetained() []string {
+	var out []string
+	for r, v := range t.vc {
+		if now := viewOfInfo(r); now.Full != v.Full {
+			out = append(out, fmt.Sprintf("object obtained as %s now reads %s", v.Full, now.Full))
+			delete(t.vc, r)
+			if len(out) >= 3 {
+				break
+			}
+		}
+	}
+	return out
 }
 
 func (t *lightTarget) Deliver(s *world.Snapshot) error {
@@ -356,10 +413,12 @@ func (t *lightTarget) Close() { t.cancel() }
 // observations through the gRPC handler methods called on the server object.
 
 type fullTarget struct {
-	m    *srv.Member
-	rc   *cluster.RaftCluster
-	kv   *kvx.KV
-	st   *core.Storage
+	m           *srv.Member
+	rc          *cluster.RaftCluster
+	kv          *kvx.KV
+	st          *core.Storage
+	realStorage bool // the server's own storage is in use: no stored-side observation
+
 	mu   sync.Mutex
 	ids  map[uint64]bool // every region id the server may know of
 	ctx  context.Context
@@ -396,7 +455,11 @@ func (t *fullTarget) Forget(keep func(id uint64) bool) {
 	t.mu.Unlock()
 }
 
-func newFull(m *srv.Member, stores int) (*fullTarget, error) {
+func newFull(m *srv.Member, stores int) (*fullTarget, error) { return newFullS(m, stores, true) }
+
+// newFullS: with ownStorage=false the server keeps its real storage (etcd + region storage); the
+// stored-side observations are then empty and the storage clauses are not evaluated.
+func newFullS(m *srv.Member, stores int, ownStorage bool) (*fullTarget, error) {
 	ctx := context.Background()
 	for i := 1; i <= stores; i++ {
 		resp, err := m.Srv.PutStore(ctx, &pdpb.PutStoreRequest{Header: m.Header(),
@@ -415,8 +478,10 @@ func newFull(m *srv.Member, stores int) (*fullTarget, error) {
 	k := kvx.New(kv.NewMemoryKV())
 	k.SetLogging(false)
 	st := core.NewStorage(k)
-	rc.SetStorage(st)
-	return &fullTarget{m: m, rc: rc, kv: k, st: st, ids: map[uint64]bool{2: true}, ctx: ctx}, nil
+	if ownStorage {
+		rc.SetStorage(st)
+	}
+	return &fullTarget{m: m, rc: rc, kv: k, st: st, ids: map[uint64]bool{2: true}, ctx: ctx, realStorage: !ownStorage}, nil
 }
 
 func viewOfResp(meta *metapb.Region, leader *metapb.Peer, pending []*metapb.Peer, down []*pdpb.PeerStats, term uint64) view {
@@ -495,6 +560,8 @@ func (t *fullTarget) GetByKey(key string) *view {
 	return &v
 }
 
+func (t *fullTarget) Drop(id uint64) { t.rc.DropCacheRegion(id) }
+
 func (t *fullTarget) Loadable(id uint64) bool {
 	var m metapb.Region
 	ok, err := t.st.LoadRegion(id, &m)
@@ -514,7 +581,7 @@ func (t *fullTarget) Healthy() error {
 	if !t.rc.IsRunning() || t.m.Srv.GetRaftCluster() != t.rc {
 		return fmt.Errorf("raft cluster not running")
 	}
-	if t.rc.GetStorage() != t.st {
+	if !t.realStorage && t.rc.GetStorage() != t.st {
 		return fmt.Errorf("raft cluster was restarted (storage replaced)")
 	}
 	return nil
